@@ -1,6 +1,6 @@
 PROPERTY = 'C39'
 LEVEL = 'proof'
-VERUS = ['verus/C39.rs']
+VERUS = ['verus/C39.rs', 'verus/C39_invoke.rs']
 TRUSTED = [
     'Verus 0.2026.09.13 + bundled Z3; vstd (incl. its specs of Ord::min/max on i64, Vec::{remove, insert, truncate, len}, Option::{map, unwrap_or})',
     'assumed std contract (vstd has none): i64::saturating_add',
@@ -11,14 +11,14 @@ TRUSTED = [
 ]
 UNVERIFIED = [
     'the induction over histories is by the per-step contract plus lemma_left_off_preserved and lemma_empty_board_wf; the quantification over ALL participants (one bystander at a time) and the link "shown volume == that participant\'s stored volume" are carried by the step contract, the composition over an unbounded sequence of trades is not mechanised',
-    'the call site in OnExecuted::invoke (part.volume = part.volume.saturating_add(volume) before the call -- the source of the precondition "cumulative volume only grows"; extension only when the threshold is exceeded and the competition is ongoing): located by text on every run, not under contract',
+    'the call site OnExecuted::invoke IS under contract as a whole handler (verus/C39_invoke.rs): `with_participant(|comp, part| BODY)` (rebuilds the participant account, checks it belongs to this trader and competition, runs BODY, writes it back) is replaced by BODY on the two carrier fields, the trade-event loader is a projection, the Clock sysvar one uninterpreted value; the link "what the board shows for a trader is at most their stored cumulative volume" is a precondition of the handler (it is an equality after every counted trade, by step_post); signer / PDA checks are Anchor constraints',
     'native replay of update_leaderboard runs the function TEXT (verbatim) on plain-Rust carriers over a small domain (7 addresses, volumes 0..=4, every well-formed board): a bounded search used only to find a failing input / as fallback when the function leaves the Verus subset; never counted as discharged',
 ]
 ASSUMPTIONS = ['wf(Competition): end_time >= 0, extension_duration > 0, extension_cap >= extension_duration (enforced by initialize_competition; proved to be preserved by extend_competition_time)',
                'update_leaderboard is called with the trader\'s cumulative volume, which is at least the volume they are currently shown with (saturating_add at the call site; located by text)']
 MANIFEST = dict(engine='verus',
-    technique='Verus contracts on the private associated functions OnExecuted::{update_leaderboard, extend_competition_time} extracted by text from /repo each run; Vec remove/insert/truncate through vstd, iterator position/rposition through verified loop helpers (rules R17/R18); sequence lemmas for the removal, insertion and truncation steps; bounded native run of the extracted text for replay',
-    text='Deductive proof, unbounded. Leaderboard step (any well-formed board of up to five entries, any trader, any cumulative volume not below the shown one): afterwards the board has at most five pairwise distinct traders in non-increasing order of volume; the trader is shown with the latest volume or is left off a full board whose last entry has at least as much; every other shown trader keeps their volume or is pushed off a full board whose last entry has at least as much; nobody else appears; the board never loses a place and the last volume of a full board never drops; lemma: a bystander who was left off stays left off with no more volume than the last entry; the empty initial board is well formed. Extension (all i64 clocks, saturating sums included): never earlier, never past the later of the old end time and now + cap; a failed call changes nothing; the competition invariant is preserved.',
+    technique='(call site: Verus contract on the whole handler OnExecuted::invoke and Competition::is_ongoing) Verus contracts on the private associated functions OnExecuted::{update_leaderboard, extend_competition_time} extracted by text from /repo each run; Vec remove/insert/truncate through vstd, iterator position/rposition through verified loop helpers (rules R17/R18); sequence lemmas for the removal, insertion and truncation steps; bounded native run of the extracted text for replay',
+    text='The handler: only a successful order callback during the competition with a non-zero-volume trade event OF THIS TRADER is counted (anything else changes nothing; somebody else\'s event is an error); a counted trade adds its volume (size increase only, or absolute size change) to the trader\'s cumulative volume, saturating, BEFORE the board is updated with exactly that volume; the end time never moves earlier nor past the later of the old end time and now + cap. Deductive proof, unbounded. Leaderboard step (any well-formed board of up to five entries, any trader, any cumulative volume not below the shown one): afterwards the board has at most five pairwise distinct traders in non-increasing order of volume; the trader is shown with the latest volume or is left off a full board whose last entry has at least as much; every other shown trader keeps their volume or is pushed off a full board whose last entry has at least as much; nobody else appears; the board never loses a place and the last volume of a full board never drops; lemma: a bystander who was left off stays left off with no more volume than the last entry; the empty initial board is well formed. Extension (all i64 clocks, saturating sums included): never earlier, never past the later of the old end time and now + cap; a failed call changes nothing; the competition invariant is preserved.',
     note='The composition of steps over an unbounded history is by induction on the per-step contract (not mechanised). Call sites in OnExecuted::invoke are located, not proved.')
 
 
@@ -44,11 +44,7 @@ FALLBACK_OBS = ['C39.update_leaderboard']
 
 def extra(res, repo, tier, seed):
     import os, re
-    s = open(os.path.join(repo, 'programs/competition/src/instructions/trade_callback.rs')).read()
-    for pat, what in [(r'part\.volume = part\.volume\.saturating_add\(volume\);', 'cumulative volume only grows before update_leaderboard is called'),
-                      (r'Self::update_leaderboard\(comp, part\);', 'call of update_leaderboard')]:
-        if len(re.findall(pat, s)) != 1:
-            res.undecided.append(f'anchor lost: trade_callback.rs: {what} (/{pat}/ not found exactly once)')
+    # the two text anchors of the call site are gone: OnExecuted::invoke is a unit now (verus/C39_invoke.rs)
     if tier == 'thorough':
         r = _native(repo)
         res.bounded.append(dict(id='C39.native.update_leaderboard', bound='every well-formed board of <= 5 entries over 7 addresses and volumes 0..=3, every trader and new volume up to 4', status='bounded-ok' if r['ok'] else 'bounded-failed', checks=r['executions'], time_s=None))
